@@ -16,13 +16,23 @@ class C06(InterpProp):
     level = "exploration"
     technique = "deterministic simulation of the Colang 2 interpreter under a simulated UMIM client (Started/Finished delayed, dropped, duplicated, reordered; virtual clock; decided tie-breaks): lifetime invariants after every event + Start/Stop life-cycle automaton over the event history"
     rule = ("one run = one generated flow hierarchy (start/await/activate/when/groups, depth <= 4, <= 7 flow definitions, UMIM actions with references) driven by seeded user events and action events; "
-            "fault kinds per action: never finished, finished twice, finished before started, finished 30 s late, no Started, Finished after Stop. evaluations = processed external events; "
+            "(statements include break/continue, flows held in references that are stopped or awaited through them); 4 % of the runs use the shipped core/timing/avatars library flows instead; fault kinds per action: never finished, finished twice, finished before started, finished 30 s late, no Started, Finished after Stop. evaluations = processed external events; "
             "non-trivial = steps at which a flow instance finished or failed while it still had running children or unfinished actions; distinct = distinct normalised interpreter states at such steps")
     expected_probes = ["parent_ended_with_live_children", "parent_ended_with_unfinished_action", "stop_sent", "finished_after_stop_delivered", "started_delivered_after_stop", "activated_flow_restarted", "tie_break_decided"]
     quick_runs = 4000
     thorough_runs = 200000
 
     def generate(self, d, index, tier):
+        if d.chance(0.04, "library"):
+            # the shipped library flows (core, timing, avatars: posture / interruption management, notifications) as hierarchies
+            from . import c09
+
+            variant = d.randint(0, len(c09.LIB_VARIANTS) - 1, "libvariant")
+            dels = [c09.library_delivery(d, i, max(variant, 1) if variant else 0) if variant else
+                    {"type": "UtteranceUserActionFinished", "final_transcript": d.choice(c09.USER_TEXTS, "ut", i), "action_uid": "user-%d" % i, "is_success": True} for i in range(d.randint(3, 9, "n"))]
+            return {"program_text": c09.library_program(variant), "lib_variant": variant, "deliveries": dels, "flavour": "library",
+                    "client": {"seed": d.randint(0, 1 << 30, "cs"), "faults": [f for f in ("late", "dup", "never", "started_late") if d.chance(0.3, "lf", f)]},
+                    "tie_seed": d.randint(0, 1 << 30, "ts"), "gap_seed": d.randint(0, 1 << 30, "gs")}
         if d.chance(0.3, "scope_race"):
             # actions started inside when / or-group scopes, with Started events that cross the Stop on the wire
             sc = gen_interp_scenario(d, with_faults=False, allow_vars=False, action_scope_bias=True)
